@@ -120,7 +120,9 @@ func c35Pub(id int) c35H {
 }
 
 func c35Report(r c35Rep) types.WorkReport {
-	h := sha256.Sum256([]byte{'r', r.Tag, byte(r.Core)})
+	// the package hash depends on two bits of the tag only: different reports of one package (a package
+	// reported again with another outcome) occur in one history; the report itself carries the whole tag
+	h := sha256.Sum256([]byte{'r', r.Tag & 3, byte(r.Core)})
 	return types.WorkReport{
 		PackageSpec: types.WorkPackageSpec{Hash: types.WorkPackageHash(h), Length: types.U32(r.Tag)},
 		CoreIndex:   types.CoreIndex(r.Core),
